@@ -379,7 +379,8 @@ class Check:
     def prove(self, extra_files=()):
         bad = hygiene()
         ok, log = coq_build()
-        res = check_props(self.pid, extra_files) if ok and not bad else {"theorems": [], "closed": [], "axioms": {}, "error": log if not bad else None, "files": []}
+        res = check_props(self.pid, extra_files) if ok and not bad else {"theorems": [], "closed": [], "axioms": {}, "files": [],
+                                                                         "error": (log or "coq build failed (no output)") if not bad else None}
         self.proof = res
         broken = []
         if bad:
@@ -390,6 +391,8 @@ class Check:
             extra = [a for a in ax if a.split(".")[-1] not in ALLOWED_AXIOMS]
             if extra:
                 broken.append({"what": f"theorem {thm} depends on axioms", "detail": extra})
+        if not broken and not res.get("theorems"):
+            broken.append({"what": "no property theorem was checked", "detail": str(res)[:500]})
         self.proof_broken = broken
         return broken
 
